@@ -419,7 +419,8 @@ class Parallel:
                         for result in self._run_callbacks(in_thread_result)
                     ]
 
-                if not pool:
+                if not pool and (queue_empty or self.tasks_done >= len(device_ids)):
+                    # all workers are gone: stop only when nothing is left in done_queue
                     break
 
                 for name in retired_workers:
